@@ -330,6 +330,14 @@ func runC03(seed int64, n int, tier string) *Result {
 			"afterwards every held action is released and the sink answers what it still gets; checked: every requester (packet.Send) returns within 1.5s with a non-nil packet that is its real answer or a dropped-packet error, no panic, and requesters on unaffected paths (other process on process exit; everybody on closing an unused port) get their real answer",
 		Hist: map[string]int{},
 	}
+	// one forced schedule first: a teardown of the reader side landing while another requester is inside Write
+	for _, how := range []string{"reader", "port", "exit"} {
+		if f := probeTeardownDuringWrite(how); f != "" {
+			res.Cases = append(res.Cases, Case{Gallina: "(0, [], [], false)", Nontrivial: true, OracleFail: f,
+				Input: []string{"out-port linked to in-port", "write (accepted, unanswered)", "teardown (" + how + ") in one goroutine; the reader's drop notice held at the top of Writer.receive", "write on the same writer from another goroutine"}})
+			return res
+		}
+	}
 	for i := 0; i < n; i++ {
 		g, in, fail, nt := pumpCase(r, res.Hist)
 		if fail == "" {
